@@ -181,4 +181,115 @@ theorem inIQR_matches_source (data : List Int) (s : Summary) (h : summary data =
         subst h
         simp [Gen.Src.c20InIQR]
 
+/-! ### decision-tree ties: the ORDER of the tests, the nesting and what each exit returns are regenerated from the
+source (`Gen.Src.c20…Tree`, exits numbered in source order); the model's function takes the same exits -/
+
+/-- `logTriggersUpkeep`, whole body and the body of its `range upkeep.EligibleAt` loop.  Exit 1 = `return true`
+(always eligible), exit 3 = the final `return false`; the loop (an effect for the function's tree) is entered
+exactly when the tree with `AlwaysEligible` forced to true takes exit 1, and returns what the loop-body tree's exit 1
+returns at the first eligible block that takes it. -/
+theorem logTriggersUpkeep_tree_matches_source (l : LogEv) (u : Upkeep) :
+    logTriggersUpkeep l u =
+      (Gen.Src.c20LogTriggersTreeVal (bigCmp l.triggerAt u.createInBlock) l.triggerValue u.triggeredBy u.alwaysEligible
+          (Gen.Src.c20LogTriggersTree (bigCmp l.triggerAt u.createInBlock) l.triggerValue u.triggeredBy u.alwaysEligible) ||
+       (decide (Gen.Src.c20LogTriggersTree (bigCmp l.triggerAt u.createInBlock) l.triggerValue u.triggeredBy true = 1) &&
+        u.eligibleAt.any fun b => decide (Gen.Src.c20LogEligibleLoopTree (bigCmp b l.triggerAt) = 1) &&
+          Gen.Src.c20LogEligibleLoopTreeVal (bigCmp b l.triggerAt) 1)) := by
+  have hb : (l.triggerValue == u.triggeredBy) = decide (l.triggerValue = u.triggeredBy) := by
+    by_cases h : l.triggerValue = u.triggeredBy <;> simp [h]
+  have hf : (fun b => decide (Gen.Src.c20LogEligibleLoopTree (bigCmp b l.triggerAt) = 1) &&
+      Gen.Src.c20LogEligibleLoopTreeVal (bigCmp b l.triggerAt) 1) = fun b => decide (b ≥ l.triggerAt) := by
+    funext b
+    have := bigCmp_ge b l.triggerAt
+    by_cases h : b ≥ l.triggerAt <;> simp_all [Gen.Src.c20LogEligibleLoopTree, Gen.Src.c20LogEligibleLoopTreeVal]
+  simp only [logTriggersUpkeep, Gen.Src.c20LogTriggersTree, Gen.Src.c20LogTriggersTreeVal, bigCmp_ge, hf, hb]
+  by_cases h1 : l.triggerAt ≥ u.createInBlock <;> by_cases h2 : l.triggerValue = u.triggeredBy <;>
+    cases h3 : u.alwaysEligible <;> simp [h1, h2]
+
+/-- `calculateExpectedPerformEvents`, body of `range upkeeps`: exit 1 = `continue` on `!upkeep.Expected`, otherwise
+the `switch upkeep.Type` is reached and the body runs to its end (exit 0) whichever arm is taken -/
+theorem expectedOf_tree_matches_source (logs : List LogEv) (u : Upkeep) :
+    expectedOf logs u =
+      if Gen.Src.c20ExpectedLoopTree u.expected (match u.type with | .conditional => 0 | .logTrigger => 1) = 1 then 0
+      else match u.type with
+        | .conditional => u.eligibleAt.length
+        | .logTrigger => (logs.filter fun l => logTriggersUpkeep l u).length := by
+  cases he : u.expected <;> cases ht : u.type <;> simp [expectedOf, Gen.Src.c20ExpectedLoopTree, he, ht]
+
+/-- `OCR3TransmitLoader.Transmit`: with the two gob encodings succeeding (they cannot fail for a `TransmitEvent`),
+a known key leaves through exit 3 (`report already transmitted`), an unknown one through exit 4 (`return nil`,
+after it has been queued and recorded) -/
+theorem transmit_tree_matches_source (s : TLState) (key : String) :
+    (s.transmit key).2 = decide (Gen.Src.c20TransmitTree false (s.transmitted.contains key) = 4) ∧
+    ((s.transmit key).2 = false ↔ Gen.Src.c20TransmitTree false (s.transmitted.contains key) = 3) := by
+  cases h : s.transmitted.contains key
+  · have hm : key ∉ s.transmitted := by simpa using h
+    simp [TLState.transmit, Gen.Src.c20TransmitTree, hm]
+  · have hm : key ∈ s.transmitted := by simpa using h
+    simp [TLState.transmit, Gen.Src.c20TransmitTree, hm]
+
+/-- `isEligible`, one iteration of the descending loop over the eligible blocks (the LAST block is tried first):
+when `block.Cmp(eligibleBlock) >= 0` the iteration ends the function: with what exit 1 returns (`return false`) if
+the nested scan finds a perform in `[eligible, block]`, else with what exit 2 returns (`return true`);
+otherwise the body falls through (exit 0) to the next lower eligible block -/
+theorem isEligible_step_tree_matches_source (es ps : List Int) (e b : Int) :
+    isEligible (es ++ [e]) ps b =
+      if Gen.Src.c20IsEligibleLoopTree (bigCmp b e) = 2 then
+        (if (ps.any fun p => decide (e ≤ p) && decide (p ≤ b)) then Gen.Src.c20IsEligibleLoopTreeVal (bigCmp b e) 1
+         else Gen.Src.c20IsEligibleLoopTreeVal (bigCmp b e) 2)
+      else isEligible es ps b := by
+  have hc := bigCmp_ge b e
+  unfold isEligible
+  simp only [List.reverse_append, List.reverse_cons, List.reverse_nil, List.nil_append, List.singleton_append, List.find?_cons]
+  by_cases h : b ≥ e
+  · cases hs : (ps.any fun p => decide (e ≤ p) && decide (p ≤ b)) <;>
+      simp_all [Gen.Src.c20IsEligibleLoopTree, Gen.Src.c20IsEligibleLoopTreeVal]
+  · simp [Gen.Src.c20IsEligibleLoopTree, hc, h]
+
+/-- `isEligible`, the nested scan: for every block of `[eligible, block]` (`rangePoint` from 0 to the distance) and
+every perform, exit 1 (`return false`) on `performBlock.Cmp(checkBlock) == 0` — i.e. some perform lies in that range -/
+theorem isEligible_scan_tree_matches_source (ps : List Int) (e b : Int) (h : e ≤ b) :
+    (ps.any fun p => decide (e ≤ p) && decide (p ≤ b)) =
+      (List.range (b - e + 1).toNat).any fun k => ps.any fun p =>
+        decide (Gen.Src.c20PerformedAtTree (bigCmp p (e + (k : Int))) = 1) := by
+  have hcmp : ∀ p c : Int, decide (Gen.Src.c20PerformedAtTree (bigCmp p c) = 1) = decide (p = c) := by
+    intro p c
+    unfold Gen.Src.c20PerformedAtTree bigCmp
+    by_cases h1 : p < c
+    · have : p ≠ c := by omega
+      simp [h1, this]
+    · by_cases h2 : p = c
+      · simp [h2]
+      · simp [h1, h2]
+  simp only [hcmp]
+  apply Bool.eq_iff_iff.mpr
+  simp only [List.any_eq_true, Bool.and_eq_true, decide_eq_true_eq, List.mem_range]
+  constructor
+  · rintro ⟨p, hp, h1, h2⟩
+    exact ⟨(p - e).toNat, by omega, p, hp, by omega⟩
+  · rintro ⟨k, hk, p, hp, hpe⟩
+    exact ⟨p, hp, by omega, by omega⟩
+
+/-- `findMedianAndSplitData`: exit 1 = the early `return 0, values, values` on an empty input; every other input
+runs through the even / odd `if` (no exit inside) to the final bare `return` (exit 2) -/
+theorem findMedian_tree_matches_source (v : List Int) :
+    findMedianAndSplitData v =
+      if Gen.Src.c20MedianTree v.length (v.length % 2) = 1 then some (0, v, v)
+      else if Gen.Src.c20MedianEven (v.length % 2) then
+        (do let x ← idx v (v.length / 2 - 1)
+            let y ← idx v (v.length / 2)
+            let a ← sliceTo v (v.length / 2)
+            let b ← sliceFrom v (v.length / 2)
+            pure (x + y, a, b))
+      else
+        (do let x ← idx v (v.length / 2)
+            let a ← sliceTo v (v.length / 2)
+            let b ← sliceFrom v (v.length / 2 + 1)
+            pure (2 * x, a, b)) := by
+  by_cases h0 : v.length = 0
+  · simp [findMedianAndSplitData, Gen.Src.c20MedianTree, h0]
+  · by_cases he : v.length % 2 = 0 <;>
+      simp [findMedianAndSplitData, Gen.Src.c20MedianTree, Gen.Src.c20MedianEven, h0, he]
+
+
 end AutoVerif.C20
